@@ -35,6 +35,9 @@ CLAIMS = {
     "C13": ("model_checking", "MC_TDM.tla (UnrollMeansLoop / SpaceMeansLoop on the model; history machine RollRestores, CacheCoherent) + every call history and forced-outcome run executed on TDMProgram / Engine",
             "TLC proves on the model, for single-band (N=2,3, incl. daggered and constant-parameter gates) and two-band templates, that register-shifting and space unrolling act on the same pulses with the same parameters and flags as the explicit loop, and emits the expected circuit after every history of unroll(1|2) / space_unroll(1) / roll calls (<= 3), the exact joint state of all pulses with measurements withheld, and the chain of conditional Born laws under forced outcomes; the harness executes every history (default and integer shift) and compares circuit, register and errors, runs with the generator intercepted (Born chain at every measurement, final window state, samples entry-wise by (shot, band, bin)), the space-unrolled run and the hand-written explicit loop.",
             "§5 C13", "Gaussian simulator; T = 3-6 bins; shift default / 1; space unrolling at shots = 1 (state equivalence is stated there)"),
+    "C14": ("exploration", "generated programs over every operation class round-tripped through the real Blackbird / XIR writers and loaders; TLC (TraceIO.tla) judges the projected abstract programs: same commands, flags, parameters, options, order compatible with CircuitOrder.Legal",
+            "One program per operation class with every flag combination, scalar / array / complex / symbolic / measured-parameter arguments, target and run options, random multi-command programs (raw and compiled) and time-domain programs with 1-12 parameter arrays are saved and loaded in both formats; the loaded program is projected to the abstract program and compared by TLC with the original up to a legal reordering. Encode/decode fidelity is at the edge of the technique: the specification contributes the abstract program, the notion of compatible order and the verdict; the inputs are a catalogue, not a TLC enumeration.",
+            "§5 C14", "exploration level; numeric parameters compared at 10 significant digits; many open findings (see known_findings.json)"),
     "C15": ("model_checking", "self-composition in TLC (MC_Hbar.tla: invariant HbarFree) + replay of each program and its unit-rescaled twin at two hbar values on every simulator",
             "TLC proves on the model that, with X/Z amounts and homodyne post-selection values rescaled by sqrt(hbar2/hbar1), the hbar-free states coincide after every operation; each behaviour is then run at both hbar values (fresh processes) on gaussian, bosonic, fock-pure, fock-mixed and compared with the exact kernel state (scaling law) and pairwise on dimensionless results (mean photon number and variance, vacuum fidelity, Fock probabilities).",
             "§5 C15", "hbar = 2k^2 for rational k in {1, 1/2, 3/2, 2}; 2-3 modes, depth <= 2"),
